@@ -33,8 +33,9 @@ def theoremCheckC01 (op : Op) (pre post : World) : List String :=
     (if decide (Core d pre) then [] else [s!"hypothesis Core fails on the pre-state for denom {d}"]) ++
     (if decide (OpScope d op pre) then
       (if gap pre d ≤ gap post d then [] else [s!"step_gap: gap of denom {d} fell {gap pre d} -> {gap post d}"]) ++
-      (if decide (Core d post) then [] else [s!"step_gap: Core lost on the post-state for denom {d}"])
-     else []) ++
-    (if 0 ≤ gap post d then [] else [s!"custody_covers: gap of denom {d} is {gap post d}"])
+      (if decide (Core d post) then [] else [s!"step_gap: Core lost on the post-state for denom {d}"]) ++
+      -- `custody_covers` for the one-step history pre → post (its premise: custody covered what was owed before)
+      (if 0 ≤ gap pre d ∧ ¬ 0 ≤ gap post d then [s!"custody_covers: gap of denom {d} is {gap post d}"] else [])
+     else [])
 
 end Alliance
